@@ -777,6 +777,9 @@ func (env *SpecEnv) call(e *Expr) *SV {
 		if obj, ok := types.Universe.Lookup(tn).(*types.TypeName); ok {
 			ty = obj.Type()
 		}
+		if ty == nil && e.Args[1].Kind == "str" {
+			ty = x.eng.typeByString(tn)
+		}
 		switch {
 		case ty != nil:
 		default:
@@ -807,6 +810,9 @@ func (env *SpecEnv) call(e *Expr) *SV {
 		a := env.eval(e.Args[0])
 		tn := e.Args[1].Name
 		if e.Args[1].Kind == "str" || strings.Contains(tn, ".") || strings.Contains(tn, "/") {
+			if t := x.eng.typeByString(tn); t != nil && t.String() == tn {
+				return &SV{T: And(Neq(a.T, IntLit(0)), Eq(x.dynType(a.T), x.typeIDOf(t)))}
+			}
 			return &SV{T: And(Neq(a.T, IntLit(0)), Eq(x.dynType(a.T), x.typeID(tn)))}
 		}
 		var ty types.Type
@@ -1087,6 +1093,50 @@ func (x *Exec) typeIDOf(t types.Type) *Term {
 var errorIface = types.Universe.Lookup("error").Type().Underlying().(*types.Interface)
 
 // nonErrorTypeIDs: ids of registered concrete types that do not implement error.
+// implementsFacts: for the given concrete type ids and interface ids (as they occur in a query),
+// whether the Go type implements the interface (from go/types; sound ground facts).
+func implementsFacts(conc, ifaces map[int64]bool) []string {
+	byID := map[int64]types.Type{}
+	for name, t := range typeOfID {
+		byID[int64(typeIDs[name])] = t
+	}
+	var out []string
+	var cs, is []int64
+	for c := range conc {
+		cs = append(cs, c)
+	}
+	for i := range ifaces {
+		is = append(is, i)
+	}
+	sort.Slice(cs, func(a, b int) bool { return cs[a] < cs[b] })
+	sort.Slice(is, func(a, b int) bool { return is[a] < is[b] })
+	for _, c := range cs {
+		ct := byID[c]
+		if ct == nil {
+			continue
+		}
+		if _, isI := ct.Underlying().(*types.Interface); isI {
+			continue
+		}
+		for _, i := range is {
+			it := byID[i]
+			if it == nil {
+				continue
+			}
+			iface, ok := it.Underlying().(*types.Interface)
+			if !ok {
+				continue
+			}
+			if types.Implements(ct, iface) {
+				out = append(out, fmt.Sprintf("(assert (implements %d %d))", c, i))
+			} else {
+				out = append(out, fmt.Sprintf("(assert (not (implements %d %d)))", c, i))
+			}
+		}
+	}
+	return out
+}
+
 func nonErrorTypeIDs() []int {
 	var out []int
 	for name, t := range typeOfID {
@@ -1226,4 +1276,27 @@ func (x *Exec) validOf(env *SpecEnv, a *SV, e *Expr) *Term {
 	}
 	x.eng.DeclareUF("Valid", SBool, SInt)
 	return And(Neq(a.T, IntLit(0)), App("Valid", SBool, a.T))
+}
+
+// typeByString resolves "pkg/path.Name" or "*pkg/path.Name" among the loaded packages.
+func (e *Engine) typeByString(name string) types.Type {
+	ptr := strings.HasPrefix(name, "*")
+	name = strings.TrimPrefix(name, "*")
+	i := strings.LastIndex(name, ".")
+	if i < 0 {
+		return nil
+	}
+	path, tn := name[:i], name[i+1:]
+	for _, p := range e.Prog.AllPackages() {
+		if p.Pkg.Path() != path {
+			continue
+		}
+		if obj, ok := p.Pkg.Scope().Lookup(tn).(*types.TypeName); ok {
+			if ptr {
+				return types.NewPointer(obj.Type())
+			}
+			return obj.Type()
+		}
+	}
+	return nil
 }
